@@ -1445,6 +1445,32 @@ func rxMain(args []string) error {
 		}
 	}
 
+	if *nuntil > 0 {
+		// a long response (more packages than any "reasonable" bound on what is skipped) abandoned at its start
+		// and drained by the library, then the next response: nothing of the first one is left for the second
+		tr.Reset(map[string]interface{}{"driver": "until-long", "seed": *seed})
+		var ps []wPkg
+		for k := 0; k < 1100; k++ {
+			ps = append(ps, encRetStat(int32(k)))
+		}
+		ps = append(ps, encDone(tokDone, 0, 0, 1))
+		resp := respBytes(ps)
+		r.resp(1, ps)
+		if err := r.runDirect(1, resp, nil, "ref", true, 0, 0); err != nil {
+			return err
+		}
+		if err := r.runUntil(1, resp, []int{len(resp) / 2}, true, 0, 0, []string{"err"}, -1); err != nil {
+			return err
+		}
+		ps2 := []wPkg{encRetStat(77), encDone(tokDone, 0, 0, 1)}
+		r.resp(2, ps2)
+		if err := r.runDirect(2, respBytes(ps2), nil, "ref", false, 0, 0); err != nil {
+			return err
+		}
+		if err := r.runUntil(2, respBytes(ps2), nil, false, 0, 0, []string{"cont", "cont"}, -1); err != nil {
+			return err
+		}
+	}
 	outs := []string{"cont", "cont", "cont", "cont", "stop", "eof", "err"}
 	for i := 0; i < *nuntil; i++ {
 		if r.lates >= 6 {
